@@ -5,6 +5,7 @@ import (
 	"fmt"
 
 	"github.com/mutagen-io/mutagen/pkg/selection"
+	"github.com/mutagen-io/mutagen/pkg/synchronization"
 	"github.com/mutagen-io/mutagen/pkg/url"
 )
 
@@ -42,6 +43,20 @@ func (s *CreationSpecification) ensureValid() error {
 	// Verify that the beta-specific configuration is valid.
 	if err := s.ConfigurationBeta.EnsureValid(true); err != nil {
 		return fmt.Errorf("invalid beta-specific configuration: %w", err)
+	}
+
+	// Verify that the effective configuration for each endpoint (i.e. the
+	// session configuration merged with the endpoint-specific configuration)
+	// is valid. Endpoint-specific configurations are validated above without
+	// knowledge of the session-level settings that determine whether or not
+	// some of their values are acceptable (e.g. the permissions mode in the
+	// case of the default file mode), and endpoints will validate (and use)
+	// the merged configuration.
+	if err := synchronization.MergeConfigurations(s.Configuration, s.ConfigurationAlpha).EnsureValid(false); err != nil {
+		return fmt.Errorf("invalid effective alpha configuration: %w", err)
+	}
+	if err := synchronization.MergeConfigurations(s.Configuration, s.ConfigurationBeta).EnsureValid(false); err != nil {
+		return fmt.Errorf("invalid effective beta configuration: %w", err)
 	}
 
 	// Verify that the name is valid.
